@@ -316,6 +316,46 @@ def second_nearest_face(drv, sph):
     ds = sorted((G.angle(v, to_cart(o.axis)), o.id) for o in origins)
     return ds[0][1], ds[1][1], ds[1][0] - ds[0][0], ds[2][0] - ds[1][0]
 
+def _in_face_domain(x, y, de, shrink=0.95):
+    """inside the face pentagon extended by the five mirror triangles beyond its edges (with a safety margin)"""
+    rr = math.hypot(x, y)
+    th = math.atan2(y, x) % (2 * math.pi / 5)
+    th = min(th, 2 * math.pi / 5 - th)
+    along = rr * math.cos(th)
+    across = rr * math.sin(th)
+    half_edge = de * math.tan(math.pi / 5)
+    if along <= de:
+        return True
+    return across <= half_edge * (2 * de - along) / de * shrink
+
+def special_face_polygon(rng, drv):
+    """small triangle/quad (1e-5.5 .. 1e-1.3 face widths) with a vertex at, or within a small fraction of its size of, a special point of the
+    face plane: the face centre (10 triangles meet), a pentagon vertex, an edge midpoint, or a point of a triangle seam"""
+    from a5.core.constants import distance_to_edge as de
+    size = 10 ** rng.uniform(-5.5, -1.3) * de
+    k = rng.choice([3, 4])
+    for _ in range(50):
+        kind = rng.choice(['centre', 'centre', 'vertex', 'edgemid', 'seam'])
+        if kind == 'centre':
+            sp = (0.0, 0.0)
+        elif kind == 'vertex':
+            a = (2 * rng.randrange(5) + 1) * math.pi / 5
+            sp = (de / math.cos(math.pi / 5) * math.cos(a), de / math.cos(math.pi / 5) * math.sin(a))
+        elif kind == 'edgemid':
+            a = rng.randrange(5) * 2 * math.pi / 5
+            sp = (de * math.cos(a), de * math.sin(a))
+        else:
+            a = rng.randrange(10) * math.pi / 5
+            r = rng.uniform(0.02, 0.9) * de
+            sp = (r * math.cos(a), r * math.sin(a))
+        u = rng.uniform(0, 2 * math.pi)
+        eta = rng.choice([0.0, 1e-3, 1e-2, 0.1, 0.3, -0.05])
+        cx, cy = sp[0] + size * (1 - eta) * math.cos(u), sp[1] + size * (1 - eta) * math.sin(u)
+        poly = [(cx + size * math.cos(u + math.pi + 2 * math.pi * i / k), cy + size * math.sin(u + math.pi + 2 * math.pi * i / k)) for i in range(k)]
+        if all(_in_face_domain(x, y, de) for (x, y) in poly):
+            return poly
+    return None
+
 def random_face_polygon(rng, drv):
     """triangle or quad inside the face pentagon or straddling an edge into the mirror triangle beyond it; sizes 1e-4..0.5 face widths"""
     from a5.core.constants import distance_to_edge
